@@ -55,7 +55,11 @@ class HplEvent(HplAstObject):
     def simple_events(self) -> Iterator['HplEvent']:
         raise NotImplementedError()
 
-    def type_check_references(self, msg_types: Mapping[str, TypeToken]) -> None:
+    def type_check_references(
+        self,
+        msg_types: Mapping[str, TypeToken],
+        aliases: Optional[Mapping[str, TypeToken]] = None,
+    ) -> None:
         raise NotImplementedError()
 
 
@@ -126,9 +130,14 @@ class HplSimpleEvent(HplEvent):
     def simple_events(self) -> Iterator[HplEvent]:
         yield self
 
-    def type_check_references(self, msg_types: Mapping[str, TypeToken]) -> None:
+    def type_check_references(
+        self,
+        msg_types: Mapping[str, TypeToken],
+        aliases: Optional[Mapping[str, TypeToken]] = None,
+    ) -> None:
         this_msg = msg_types[self.name]
-        self.predicate.type_check_references(this_msg, variables=msg_types)
+        variables = aliases if aliases is not None else {}
+        self.predicate.type_check_references(this_msg, variables=variables)
 
     def __str__(self) -> str:
         alias = (' as ' + self.alias) if self.alias is not None else ''
@@ -187,9 +196,13 @@ class HplEventDisjunction(HplEvent):
         for event in self.event2.simple_events():
             yield event
 
-    def type_check_references(self, msg_types: Mapping[str, TypeToken]) -> None:
-        self.event1.type_check_references(msg_types)
-        self.event2.type_check_references(msg_types)
+    def type_check_references(
+        self,
+        msg_types: Mapping[str, TypeToken],
+        aliases: Optional[Mapping[str, TypeToken]] = None,
+    ) -> None:
+        self.event1.type_check_references(msg_types, aliases)
+        self.event2.type_check_references(msg_types, aliases)
 
     def __str__(self) -> str:
         # the grammar only has the flat form: (a or b or c)
